@@ -181,7 +181,10 @@ static const char* vf_adv_name(int adv) {
     default: return "OTHER";
   }
 }
+static long vf_os_in_call = 0;       /* OS calls since the current API call started (reset by the drivers at every call) */
+#define VF_OS_RUNAWAY 6000
 static void vf_os_event(const char* call, void* addr, size_t len, const char* arg, int ok, int fixed) {
+  if (vf_in_call && ++vf_os_in_call > VF_OS_RUNAWAY) vf_crash_handler(98);     /* one API call that keeps asking the OS without end: end the run with a crash event */
   if (!vf_os_log) return;
   vf_logf("{\"e\":\"os\",\"t\":%d,\"call\":\"%s\",\"a\":[%ld,%ld],\"len\":[%ld,%ld],\"arg\":\"%s\",\"ok\":%s,\"fixed\":%s,\"k\":%ld}",
           vf_cur_thread, call, VF_HI(addr), VF_LO(addr), VF_HI(len), VF_LO(len), arg, ok ? "true" : "false", fixed ? "true" : "false", vf_os_count);
